@@ -50,7 +50,8 @@ def slices(tier):
     sub_abc = spaces.subsequence_syntenies(3) + [("b", "a"), ("c", "b"), ("c", "a")]
     quick_menu = [core[0], core[2], core[4], core[7]]
     quick = [
-            ("O3x2x3", spaces.shape_pairs(3, 2), o3, quick_menu + [core[6]], False),   # + hgt = 0
+            # + hgt = 0, + full and segmental losses at different prices (either way round)
+            ("O3x2x3", spaces.shape_pairs(3, 2), o3, quick_menu + [core[6], (0, 3, 1, 1, 2), (0, 1, 1, 2, 1)], False),
             ("R-root3x2x2", spaces.shape_pairs(3, 2, min_obj=2), o2, quick_menu[:2], True),
             # 4 object leaves in a chain on one species, leaves holding subsequences of abc: three nested ancestors, a
             # family carried down past a node none of whose leaves has it
@@ -93,6 +94,11 @@ def plan(tier, seed):
         out.extend(L.split_plan(name, pairs, menu, 150, {"costs": costs, "rooted": rooted}))
     # SIX families, loosely constrained: the leaves ab, cd, e, af in every arrangement on the two 4-leaf combs (one species):
     # 120 compatible root orders per input, two of them optimal (thorough: two more such menus)
+    # the 4-leaf comb on the 3-leaf species comb, every species used, leaves over {a, c, bc, abc}, segmental losses dearer
+    # than full ones: a nested speciation competing with a transfer where the two loss prices must not be confused
+    out.extend(L.split_plan("O4combx3combx{a,c,bc,abc}/uneven-losses", [((((None, None), None), None), ((None, None), None))],
+                            [("a",), ("c",), ("b", "c"), ("a", "b", "c")], 80,
+                            {"costs": [(0, 3, 1, 1, 2)], "rooted": False, "surjective": True}))
     menus = [[("c",), ("b", "d"), ("a", "f"), ("b", "e")]]
     if tier != "quick":
         menus += [[("a", "b"), ("d", "e"), ("d", "f"), ("c",)], [("a", "b"), ("c", "d"), ("e",), ("a", "f")]]
@@ -163,6 +169,8 @@ def run_shard(shard, tier, seed):
     sess = A.Session(O, S, labelled=True, unordered=False, unnamed=shard.get("unnamed", False)) if shard.get("session") else None
     for leafmap, leafsyn in L.labelled_inputs(O, S, shard["menu"], shard.get("part")):
         if shard.get("all_families") and len({f for x in leafsyn.values() for f in x}) < shard["all_families"]:
+            continue
+        if shard.get("surjective") and len(set(leafmap.values())) < len(S.leaves):
             continue
         roots = [None]
         if shard["rooted"]:
